@@ -6,7 +6,9 @@ import sys
 CANARY = '/tmp/hv_c12_canary_%d' % os.getpid()
 PAYLOADS = ['open(%r, "w")' % CANARY, '__import__("os").system("touch %s")' % CANARY, 'exec("import os")', 'eval("1")', '__class__', 'globals()', 'print',
             "');import os;('", '"+str(1)+"', "x' + str(__import__('os')) + '", 'a"b', 'a\\', 'a\nb', '__builtins__', 'NOT_FOUND', '_consts', 'lambda: 1']
-NAMES = ['open', 'eval', 'exec', '__import__', 'compile', 'print', 'globals', 'exit', 'setattr', 'Ref', 'x']
+NAMES = ['open', 'eval', 'exec', '__import__', 'compile', 'print', 'globals', 'exit', 'setattr', 'Ref', 'x',
+         # names of importable things (modules, codecs): a kind / unit / zone / tag name must never be looked up anywhere
+         'os', 'idna', 'big5', 'rot13', 'zlib', 'bz2_codec', 'uu', 'quopri', 'base64', 'antigravity', 'this', 'Big5', 'cp037', 'punycode']
 
 events = []
 
@@ -17,12 +19,13 @@ def hook(event, args):
     if event in ('open', 'os.system', 'subprocess.Popen', 'socket.connect', 'import', 'os.remove', 'os.exec', 'os.posix_spawn', 'os.fork'):
         if event == 'open' and args and isinstance(args[0], str) and not args[0].startswith('/tmp/hv_c12'):
             return
-        if event == 'import':
+        if event == 'import' and not watch_imports[0]:
             return
         events.append((event, repr(args)[:80]))
 
 
 _installed = [False]
+watch_imports = [False]      # off during the warm-up (lazy first-time imports of the library itself), on for the canary runs
 
 
 def filters():
@@ -85,19 +88,38 @@ def bounded(tier, seed):
         sys.addaudithook(hook)
         _installed[0] = True
     failures, cases = [], 0
+    # warm-up: one benign filter per literal kind and shape, so that whatever the library imports lazily on first use is loaded
+    watch_imports[0] = False
+    for text in ('a == "s"', 'a == `u`', 'a == @r "d"', 'a == hex("00")', 'a == b64("AA==")', 'a == x("y")', 'a == [1, "s", x("y")]', 'a == {k:"v"}', 'a->b == 1 and not c or d',
+                 'a == 1kW', 'a == 2020-01-01', 'a == 12:00:00', 'a == 2020-01-01T00:00:00Z UTC', 'a == 2020-01-01T00:00:00+01:00 Paris', 'a == C(1.0,2.0)', 'a == Bin(text/plain)',
+                 'a == true', 'a == N', 'a == M', 'a == R', 'a == NA', 'a == INF', '((', 'a == hex("zz")', 'a == 2020-01-01T00:00:00Z Nowhere'):
+        run_filter(text)
+    watch_imports[0] = True
     for text in filters():
         cases += 1
         outcome, fired = run_filter(text)
         if fired and len(failures) < 12:
             failures.append({'id': 'C12/' + ''.join(ch if ch.isalnum() else '_' for ch in text)[:60], 'what': 'filter %r: %r' % (text, fired), 'input': {'kind': 'filter', 'text': text}})
-    return {'cases': cases, 'failures': failures, 'bound': '%d payloads x every literal kind and identifier position x %d callable names; audit hook (open/system/spawn/socket) + canary file + module globals + grid content' % (len(PAYLOADS), len(NAMES))}
+    return {'cases': cases, 'failures': failures, 'bound': '%d payloads x every literal kind and identifier position x %d callable names; audit hook (open/system/spawn/socket/import after a warm-up) + canary file + module globals + grid content' % (len(PAYLOADS), len(NAMES))}
 
 
 def replay(inp):
     if not _installed[0]:
         sys.addaudithook(hook)
         _installed[0] = True
+    if inp.get('kind') == 'filter_literal':
+        # a text the literal grammar accepts although it spells no value: the real parser must reject `a == <text>`
+        from hszinc.grid_filter import parse_filter
+        text = 'a == ' + inp['text']
+        try:
+            r = parse_filter(text)
+            return {'reproduced': True, 'detail': 'parse_filter(%r) is accepted and read as %s' % (text, r)}
+        except Exception as e:
+            return {'reproduced': False, 'detail': 'parse_filter(%r) raises %s' % (text, type(e).__name__)}
     if inp.get('kind') == 'filter':
+        watch_imports[0] = False
+        run_filter('a == x("y") and b == 2020-01-01T00:00:00Z UTC')
+        watch_imports[0] = True
         outcome, fired = run_filter(inp['text'])
         return {'reproduced': bool(fired), 'detail': repr(fired)[:300]}
     out = bounded('quick', 0)
